@@ -106,6 +106,7 @@ class Repo:
                     except SyntaxError as e:
                         raise AnalysisError("cannot parse %s: %s" % (rel, e))
         from . import inline
+        self.aliases_expanded = inline.expand_module_aliases(self)
         self.inlined = inline.apply(self)
 
     def module(self, rel):
